@@ -309,6 +309,8 @@ def _lower_once(text, ctr, log):
             rule = "R12"
         if r is not None:
             log.append((rule, ch.src()))
+            if rule != "R12":
+                r = "(" + r + ")"   # expression position: keep the block from being parsed as a statement / loop body
             return text[:ch.start] + r + text[ch.end:]
     return None
 
